@@ -14,7 +14,7 @@ def jobs(tier, ws):
     js.append(Job('C17/new_id_PNCList', 'C17', FILE_C, 'C17_idtable.c', enforce='file.c::new_id_PNCList',
                   defines=['-DH_new_id'], canaries=['noerr', 'enfile'], unwind=3, kind='proof',
                   bound=None, timeout=900, mem_gb=12, include_tus=INC, solver=['--arrays-uf-always'],
-                  loops=[{'function': 'file.c::new_id_PNCList', 'anchor': r'for \(i=0; i<NC_MAX_NFILES; i\+\+\)',
+                  loops=[{'function': 'file.c::new_id_PNCList', 'anchor': r'^\s*for \(',
                           'invariants': '0 <= i && i <= 1024 && (pnc_numfiles < 1024 ==> i <= W) && (G < i ==> old_G != (void*)0)',
                           'assigns': 'i', 'decreases': '1024 - i',
                           'symbol_map': 'i,new_id_PNCList::1::i'}]))
